@@ -156,6 +156,267 @@ theorem C05.read_sim (n : String) (v : Int64) (fuel : Nat) (st : St) (h : Bound 
       · rfl
       · rw [hid]; rfl
 
+/-! ### the simulation on the arithmetic fragment -/
+
+/-- two computations that run identically from every state `Same` as `s0`, and keep it so -/
+def EqOn (s0 : St) (x x' : M α) : Prop := ∀ st, Same s0 st → run x st = run x' st ∧ Same s0 (run x st).2
+
+theorem EqOn.bind {s0 : St} {x x' : M α} {f f' : α → M β} (hx : EqOn s0 x x') (hf : ∀ a, EqOn s0 (f a) (f' a)) :
+    EqOn s0 (x >>= f) (x' >>= f') := by
+  intro st hs
+  obtain ⟨e, hs1⟩ := hx st hs
+  rw [run_bind, run_bind, ← e]
+  match h : run x st with
+  | (.ok a, st1) =>
+    simp only
+    rw [h] at hs1
+    exact hf a st1 hs1
+  | (.error err, st1) =>
+    rw [h] at hs1
+    exact ⟨rfl, hs1⟩
+
+theorem EqOn.of_readOnly {s0 : St} {x : M α} (hx : ReadOnly x) : EqOn s0 x x :=
+  fun st hs => ⟨rfl, by rw [hx st]; exact hs⟩
+
+theorem EqOn.get_bind {s0 : St} {k k' : St → M β} (h : ∀ s, Same s0 s → EqOn s0 (k s) (k' s)) :
+    EqOn s0 (get >>= k) (get >>= k') := by
+  intro st hs
+  rw [run_bind, run_bind, run_get]
+  exact h st hs st hs
+
+theorem EqOn.set_bind {s0 s' : St} {k k' : Unit → M β} (hs' : Same s0 s') (h : EqOn s0 (k ()) (k' ())) :
+    EqOn s0 (set s' >>= k) (set s' >>= k') := by
+  intro st _
+  rw [run_bind, run_bind, run_set]
+  exact h s' hs'
+
+theorem EqOn.modify_bind {s0 : St} {g : St → St} {k k' : Unit → M β} (hg : ∀ st, Same st (g st)) (h : EqOn s0 (k ()) (k' ())) :
+    EqOn s0 (modify g >>= k) (modify g >>= k') := by
+  intro st hs
+  rw [run_bind, run_bind, run_modify]
+  exact h (g st) (hs.trans (hg st))
+
+theorem EqOn.stop_bind {s0 : St} {e : Stop} {k k' : α → M β} :
+    EqOn s0 ((stop e : M α) >>= k) ((stop e : M α) >>= k') := by
+  intro st hs
+  rw [run_bind, run_bind, run_stop]
+  exact ⟨rfl, hs⟩
+
+
+/-- a computation that keeps frames, current scope and extension names -/
+def Pres (x : M α) : Prop := ∀ st, Same st (run x st).2
+
+theorem Pres.of_readOnly {x : M α} (hx : ReadOnly x) : Pres x := fun st => by rw [hx st]; exact Same.refl st
+
+theorem Pres.bind {x : M α} {f : α → M β} (hx : Pres x) (hf : ∀ a, Pres (f a)) : Pres (x >>= f) := by
+  intro st
+  rw [run_bind]
+  have h := hx st
+  match hr : run x st with
+  | (.ok a, st1) => simp only; rw [hr] at h; exact h.trans (hf a st1)
+  | (.error e, st1) => simp only; rw [hr] at h; exact h
+
+theorem EqOn.of_pres {s0 : St} {x : M α} (hx : Pres x) : EqOn s0 x x :=
+  fun st hs => ⟨rfl, hs.trans (hx st)⟩
+
+theorem pres_noteHazard (c : Bool) (k n : String) : Pres (noteHazard c k n) := by
+  unfold noteHazard
+  split
+  · intro st; exact ⟨rfl, rfl, rfl⟩
+  · exact Pres.of_readOnly (ReadOnly.pure _)
+
+theorem eval_succ_eqOn {s0 : St} {fuel : Nat} {L L' : Node} (h : EqOn s0 (evalI fuel L) (evalI fuel L')) :
+    EqOn s0 (eval (fuel+1) L) (eval (fuel+1) L') := by
+  rw [eval, eval]
+  apply EqOn.get_bind
+  intro s hs
+  simp (config := { zeta := true, zetaHave := true }) only
+  split
+  · exact EqOn.stop_bind
+  · refine EqOn.set_bind ?_ ?_
+    · exact ⟨hs.1, hs.2.1, hs.2.2⟩
+    apply EqOn.bind h
+    intro result
+    refine EqOn.modify_bind ?_ ?_
+    · exact fun st => ⟨rfl, rfl, rfl⟩
+    apply EqOn.of_readOnly
+    split
+    · split
+      · exact ReadOnly.bind (ReadOnly.pure _) (fun r => by split; exact readOnly_refValue _ _; exact ReadOnly.pure _)
+      · exact ReadOnly.bind (ReadOnly.pure _) (fun r => by split; exact readOnly_refValue _ _; exact ReadOnly.pure _)
+    · exact ReadOnly.bind (ReadOnly.pure _) (fun r => by split; exact readOnly_refValue _ _; exact ReadOnly.pure _)
+
+theorem evalI_pre_eqOn {s0 : St} {fuel : Nat} {op : String} {R R' : Node} (hop : (op == "INCR" || op == "DECR") = false)
+    (h : EqOn s0 (eval fuel R) (eval fuel R')) :
+    EqOn s0 (evalI (fuel+1) (.pre op R)) (evalI (fuel+1) (.pre op R')) := by
+  have leaf : EqOn s0 (do let r ← eval fuel R; if r.isError = true then pure r else pure (evalPrefixOp op r))
+      (do let r ← eval fuel R'; if r.isError = true then pure r else pure (evalPrefixOp op r)) := by
+    apply EqOn.bind h; intro r; apply EqOn.of_readOnly; split <;> exact ReadOnly.pure _
+  rw [evalI, evalI]
+  apply EqOn.get_bind; intro s hs
+  refine EqOn.set_bind ?_ ?_
+  · exact ⟨hs.1, hs.2.1, hs.2.2⟩
+  simp only [hop, Bool.false_eq_true, if_false]
+  split
+  · split
+    · exact EqOn.of_readOnly (ReadOnly.pure _)
+    · exact leaf
+  · exact leaf
+
+
+macro "pres_crawl" : tactic => `(tactic| repeat' (first
+  | exact Pres.of_readOnly (ReadOnly.pure _)
+  | exact Pres.of_readOnly (evalInfixOp_readOnly _ _ _)
+  | exact Pres.bind (Pres.of_readOnly ReadOnly.get) (fun _ => Pres.bind (pres_noteHazard _ _ _) (fun _ => Pres.of_readOnly (evalInfixOp_readOnly _ _ _)))
+  | split))
+
+macro "inf_crawl" ht:ident hr:ident : tactic => `(tactic| repeat' (first
+  | contradiction
+  | with_reducible exact $ht _
+  | with_reducible exact EqOn.of_readOnly (ReadOnly.pure _)
+  | with_reducible exact EqOn.stop_bind
+  | (with_reducible apply EqOn.bind $hr; intro right; apply EqOn.of_pres; pres_crawl)
+  | split))
+
+set_option maxHeartbeats 1600000 in
+theorem evalI_inf_eqOn {s0 : St} {fuel : Nat} {op : String} {L L' R R' : Node} (hop : (op == "ASSIGN" || op == "DEFINE") = false)
+    (ht : (R.tokType == "LPAREN") = (R'.tokType == "LPAREN"))
+    (hl : EqOn s0 (eval fuel L) (eval fuel L')) (hr : EqOn s0 (eval fuel R) (eval fuel R')) :
+    EqOn s0 (evalI (fuel+1) (.inf op L R)) (evalI (fuel+1) (.inf op L' R')) := by
+  rw [evalI, evalI]
+  apply EqOn.get_bind; intro s hs
+  refine EqOn.set_bind ?_ ?_
+  · exact ⟨hs.1, hs.2.1, hs.2.2⟩
+  have htail : ∀ left : Obj, EqOn s0
+      (do let right ← eval fuel R
+          if right.isError = true then pure right
+          else match left with
+            | Obj.array l => do
+              let __do_lift ← get
+              noteHazard (op == "PLUS" && decide (l.length > __do_lift.cfg.maxSmallArray)) "large-array-append-shares-capacity" ""
+              evalInfixOp op left right
+            | x => evalInfixOp op left right)
+      (do let right ← eval fuel R'
+          if right.isError = true then pure right
+          else match left with
+            | Obj.array l => do
+              let __do_lift ← get
+              noteHazard (op == "PLUS" && decide (l.length > __do_lift.cfg.maxSmallArray)) "large-array-append-shares-capacity" ""
+              evalInfixOp op left right
+            | x => evalInfixOp op left right) := by
+    intro left
+    apply EqOn.bind hr; intro right
+    apply EqOn.of_pres
+    split
+    · exact Pres.of_readOnly (ReadOnly.pure _)
+    · split
+      · exact Pres.bind (Pres.of_readOnly ReadOnly.get) (fun _ => Pres.bind (pres_noteHazard _ _ _) (fun _ => Pres.of_readOnly (evalInfixOp_readOnly _ _ _)))
+      · exact Pres.of_readOnly (evalInfixOp_readOnly _ _ _)
+  simp (config := { zeta := true, zetaHave := true }) only [hop, Bool.false_eq_true, if_false]
+  rw [ht]
+  split
+  · rename_i k _
+    by_cases hk : s.steps ≥ k
+    · rw [if_pos hk, if_pos hk]; exact EqOn.of_readOnly (ReadOnly.pure _)
+    · rw [if_neg hk, if_neg hk]
+      apply EqOn.bind hl; intro left
+      inf_crawl htail hr
+  · apply EqOn.bind hl; intro left
+    inf_crawl htail hr
+
+/-! ### the arithmetic fragment -/
+
+/-- bodies of the fragment: the variable, registers, literals, identifiers bound directly in the current frame
+of `s0`, prefix operators other than `++`/`--`, infix operators other than `=`/`:=` -/
+def Arith (n : String) (s0 : St) : RNode → Prop
+  | .ident m => m = n ∨ ∃ o, Direct m o s0
+  | .reg .. | .int _ | .bool _ | .str _ | .float _ => True
+  | .pre op r => (op == "INCR" || op == "DECR") = false ∧ Arith n s0 r
+  | .inf op l r => (op == "ASSIGN" || op == "DEFINE") = false ∧ Arith n s0 l ∧ Arith n s0 r
+  | _ => False
+
+theorem tokType_paren (regs : Nat → Int64) (n : String) (idx : Nat) (r : RNode) :
+    ((inst regs (substAll n idx r)).tokType == "LPAREN") = ((inst regs r).tokType == "LPAREN") := by
+  cases r <;> try rfl
+  case ident m =>
+    by_cases h : (m == n) = true
+    · simp only [substAll, h, if_true, inst, Node.tokType]; decide
+    · simp only [substAll, h, inst]; rfl
+
+/-- one leaf of `evalI`: the step counter, the deadline test, then `x` -/
+theorem evalI_leaf {s0 : St} {x y : M Obj} (h : EqOn s0 x y) :
+    EqOn s0
+      (do let st ← get
+          set { st with steps := st.steps + 1 }
+          match st.cfg.deadlineAfter with
+          | some k => if st.steps ≥ k then pure (err "context deadline exceeded") else x
+          | _ => x)
+      (do let st ← get
+          set { st with steps := st.steps + 1 }
+          match st.cfg.deadlineAfter with
+          | some k => if st.steps ≥ k then pure (err "context deadline exceeded") else y
+          | _ => y) := by
+  apply EqOn.get_bind; intro s hs
+  refine EqOn.set_bind ?_ ?_
+  · exact ⟨hs.1, hs.2.1, hs.2.2⟩
+  split
+  · split
+    · exact EqOn.of_readOnly (ReadOnly.pure _)
+    · exact h
+  · exact h
+
+theorem eqOn_ident {s0 : St} {m : String} {o : Obj} (h : Direct m o s0) : EqOn s0 (pure o) (evalIdentifier m) := by
+  intro st hs
+  rw [run_evalIdentifier_direct (h.of_same hs)]
+  exact ⟨rfl, hs⟩
+
+theorem eqOn_ident_self {s0 : St} {m : String} {o : Obj} (h : Direct m o s0) : EqOn s0 (evalIdentifier m) (evalIdentifier m) := by
+  intro st hs
+  rw [run_evalIdentifier_direct (h.of_same hs)]
+  exact ⟨rfl, hs⟩
+
+theorem sim_arith (n : String) (idx : Nat) (v : Int64) (regs : Nat → Int64) (hregs : regs idx = v) (s0 : St) (hb : Bound n v s0) :
+    ∀ (fuel : Nat) (b : RNode), Arith n s0 b →
+      EqOn s0 (evalI fuel (inst regs (substAll n idx b))) (evalI fuel (inst regs b)) ∧
+      EqOn s0 (eval fuel (inst regs (substAll n idx b))) (eval fuel (inst regs b)) := by
+  intro fuel
+  induction fuel with
+  | zero =>
+    intro b _
+    constructor
+    · rw [evalI, evalI]; exact EqOn.of_readOnly (ReadOnly.stop _)
+    · rw [eval, eval]; exact EqOn.of_readOnly (ReadOnly.stop _)
+  | succ fuel ih =>
+    intro b hb'
+    refine ⟨?_, eval_succ_eqOn (ih b hb').1⟩
+    cases b with
+    | ident m =>
+      by_cases hm : (m == n) = true
+      · have : m = n := eq_of_beq hm
+        subst this
+        simp only [substAll, hm, if_true, inst, hregs]
+        rw [evalI, evalI]
+        exact evalI_leaf (eqOn_ident hb)
+      · simp only [substAll, hm, inst]
+        cases hb' with
+        | inl h => exact absurd (by rw [h]; exact beq_self_eq_true n) hm
+        | inr h =>
+          obtain ⟨o, ho⟩ := h
+          rw [evalI]
+          exact evalI_leaf (eqOn_ident_self ho)
+    | reg m i => simp only [substAll, inst]; rw [evalI]; exact evalI_leaf (EqOn.of_readOnly (ReadOnly.pure _))
+    | int w => simp only [substAll, inst]; rw [evalI]; exact evalI_leaf (EqOn.of_readOnly (ReadOnly.pure _))
+    | bool w => simp only [substAll, inst]; rw [evalI]; exact evalI_leaf (EqOn.of_readOnly (ReadOnly.pure _))
+    | str w => simp only [substAll, inst]; rw [evalI]; exact evalI_leaf (EqOn.of_readOnly (ReadOnly.pure _))
+    | float w => simp only [substAll, inst]; rw [evalI]; exact evalI_leaf (EqOn.of_readOnly (ReadOnly.pure _))
+    | pre op r =>
+      simp only [substAll, inst]
+      exact evalI_pre_eqOn hb'.1 (ih r hb'.2).2
+    | inf op l r =>
+      simp only [substAll, inst]
+      exact evalI_inf_eqOn hb'.1 (tokType_paren regs n idx r) (ih l hb'.2.1).2 (ih r hb'.2.2).2
+    | _ => exact absurd hb' (by simp [Arith])
+
 /-! ### the general statement (not proved) -/
 
 mutual
@@ -236,5 +497,34 @@ def C05.IrrelevanceStatement : Prop :=
     countIdent n b = 0 → refuses n idx b = false → noCall b = true → (n == "info") = false →
     (run (evalReg fuel regs b) (dropBinding n st)).1 = (run (evalReg fuel regs b) st).1 ∧
     (run (evalReg fuel regs b) (dropBinding n st)).2 = dropBinding n (run (evalReg fuel regs b) st).2
+
+/-- (c) for the arithmetic fragment: if the rewrite of `b` for `n` succeeded and the register holds `v`, then in
+every state whose current frame binds `n` to `.int v`, the register-aware evaluation of the rewritten body and the
+evaluation of the original body have the same outcome and the same final state — any fuel, any deadline.
+(`SimStatement` with `noCall`/`identPositionsOk` replaced by the stronger `Arith`.) -/
+theorem C05.simulation_partial (n : String) (idx : Nat) (v : Int64) (regs : Nat → Int64) (b b' : RNode) (fuel : Nat) (st : St)
+    (hm : modifyR n idx b = some b') (hregs : regs idx = v) (hb : Bound n v st) (ha : Arith n st b) :
+    run (evalReg fuel regs b') st = run (evalI fuel (inst regs b)) st := by
+  rw [modifyR_spec] at hm
+  by_cases hr : refuses n idx b = true
+  · simp [hr] at hm
+  · have hr' : refuses n idx b = false := by simpa using hr
+    rw [hr'] at hm
+    simp only [Bool.false_eq_true, if_false, Option.some.injEq] at hm
+    subst hm
+    exact ((sim_arith n idx v regs hregs st hb fuel b ha).1 st (Same.refl st)).1
+
+/-- non-vacuity: the body `i * i + 1 < x` of a loop `for i = …` at top level, with `i = 2` and `x = 7` bound -/
+def exampleState : St := { (initState {}) with frames := #[{ store := [("i", .int 2), ("x", .int 7)] }] }
+
+example : Bound "i" 2 exampleState :=
+  ⟨by decide, by decide, by decide, ⟨{ store := [("i", .int 2), ("x", .int 7)] }, rfl, rfl, fun fn h => by cases h⟩,
+   fun e k h => by cases h⟩
+
+example : Arith "i" exampleState
+    (.inf "LT" (.inf "PLUS" (.inf "ASTERISK" (.ident "i") (.ident "i")) (.int 1)) (.ident "x")) :=
+  ⟨by decide, ⟨by decide, ⟨by decide, Or.inl rfl, Or.inl rfl⟩, trivial⟩,
+   Or.inr ⟨.int 7, by decide, by decide, by decide,
+     ⟨{ store := [("i", .int 2), ("x", .int 7)] }, rfl, rfl, fun fn h => by cases h⟩, fun e k h => by cases h⟩⟩
 
 end Grol.RegRewrite
